@@ -1,4 +1,6 @@
 """C16 - all_dot_brackets is exactly the set of greedy-stable assignments (form S)."""
+import itertools
+
 from mc import enum2d
 from mc.props.common2d import build, call, check_dbn, info, seq_of, viol
 from mc.ref import ref2d
@@ -51,9 +53,25 @@ def _special(kmax):
         yield _from_arcs(arcs, "two-ladders%d+%d" % (k1, k2))
 
 
+def mapping_cases(tier):
+    """Knotted structures pushed through the 3D route: a synthetic N-nucleotide structure (one or two chains) + the matching as cWW pairs ->
+    Mapping2D3D.all_dot_brackets / adapter.extract_secondary_structure_from_external(all_dot_brackets=True) / adapter.main --all-dot-brackets."""
+    q = tier == "quick"
+    k = 0
+    for c in itertools.chain(enum2d.M(8 if q else 9, nmin=4), enum2d.D(3, kmin=2)):
+        stems = ref2d.stems_of(c["pairs"])
+        graph = ref2d.stem_graph(stems)
+        if not any(graph[v] for v in graph):
+            continue
+        for split in (0, c["n"] // 2):
+            k += 1
+            yield dict(c, mapping=True, split=split, cli=(k % (8 if q else 3) == 0))
+
+
 def families(tier):
     q = tier == "quick"
     fams = [
+        ("mapping", lambda: mapping_cases(tier), 1),
         ("M", lambda: enum2d.M(10 if q else 11), 1),
         ("D", lambda: enum2d.D(4 if q else 5), 1),
         ("special", lambda: _special(7 if q else 8), 1),
@@ -63,7 +81,135 @@ def families(tier):
     return fams
 
 
+def _mapping_structure(case):
+    """N nucleotides 25 A apart (no contacts, no O3'-P links); paired positions get G/C so that every pair is canonical, the rest A."""
+    import numpy as np
+
+    from mc import enum3d
+    from mc.props import ann_common as ac
+
+    n = case["n"]
+    letters = ["A"] * n
+    for i, j in case["pairs"]:
+        letters[i - 1], letters[j - 1] = "G", "C"
+    specs = []
+    for k in range(n):
+        chain = "A" if k < (case["split"] or n) else "B"
+        atoms = [(nm, q + np.array([25.0 * k, 0.0, 0.0])) for nm, q in enum3d.origin(letters[k])]
+        specs.append((chain, k + 1, None, letters[k], letters[k], atoms))
+    return ac.build_structure(specs), letters, specs
+
+
+def _strands_to_structure(text):
+    import re
+
+    blocks = re.findall(r">strand_(\S*)\n(\S*)\n(\S*)", text)
+    return "".join(b[1] for b in blocks), "".join(b[2] for b in blocks), [b[0] for b in blocks]
+
+
+def run_mapping(case):
+    from rnapolis.adapter import extract_secondary_structure_from_external
+    from rnapolis.common import BaseInteractions, BasePair, LeontisWesthof, Residue, Saenger
+    from rnapolis.tertiary import Mapping2D3D
+
+    out = []
+    stems, graph, knotted, maxcomp = info(case)
+    s3, letters, specs = _mapping_structure(case)
+    nts = list(s3.residues)
+    bps = [BasePair(Residue(nts[i - 1].label, nts[i - 1].auth), Residue(nts[j - 1].label, nts[j - 1].auth), LeontisWesthof.cWW, Saenger.XIX) for i, j in case["pairs"]]
+    want = ref2d.all_greedy_stable(stems, graph)
+    seq = "".join(letters)
+    chains = ["A"] if not case["split"] else ["A", "B"]
+
+    def judge(where, texts):
+        if len(set(texts)) != len(texts):
+            out.append(viol(where + ":repeated-member", where + " repeats a notation", texts[:10], None))
+        got = set()
+        for t in texts:
+            sq, st, ch = _strands_to_structure(t)
+            if sq != seq or ch != chains or len(st) != len(seq):
+                out.append(viol(where + ":strands", "%s: strands do not concatenate to the sequence / chains" % where, t, (seq, chains)))
+                return
+            dec, probs = ref2d.decode(st)
+            if probs or sorted(map(tuple, dec)) != sorted(map(tuple, case["pairs"])):
+                out.append(viol(where + ":decoded-pairs-differ", "%s: member does not decode to the input pairs %s" % (where, case["pairs"]), st, None))
+                return
+            lev = ref2d.stem_levels(stems, dec)
+            if None in lev:
+                out.append(viol(where + ":stem-split-across-levels", "a stem is written on several levels", st, stems))
+                return
+            got.add(tuple(lev))
+        if got != want:
+            missing, extra = sorted(want - got), sorted(got - want)
+            out.append(viol("%s:set-differs:%s%s" % (where, "missing" if missing else "", "+extra" if extra else ""),
+                            "%s != greedy-stable assignments: missing=%s extra=%s (stems %s)" % (where, missing[:3], extra[:3], stems), sorted(got)[:20], sorted(want)[:20]))
+
+    m = call("Mapping2D3D", lambda: Mapping2D3D(s3, bps, [], False), out)
+    al = call("Mapping2D3D.all_dot_brackets", lambda: list(m.all_dot_brackets), out) if m is not None else None
+    if al is not None:
+        judge("mapping", al)
+        db = call("Mapping2D3D.dot_bracket", lambda: m.dot_bracket, out)
+        if db is not None and db not in al:
+            out.append(viol("mapping:optimal-not-member", "Mapping2D3D.dot_bracket is not a member of Mapping2D3D.all_dot_brackets", al[:10], db))
+    ext = call("adapter.extract", lambda: extract_secondary_structure_from_external(s3, BaseInteractions(bps, [], [], [], []), None, False, True), out)
+    if ext is not None:
+        judge("adapter", list(ext[1]))
+        if al is not None and list(ext[1]) != al:
+            out.append(viol("adapter:differs-from-mapping", "extract_secondary_structure_from_external(all_dot_brackets=True) != Mapping2D3D.all_dot_brackets", list(ext[1])[:10], al[:10]))
+    if case.get("cli"):
+        _mapping_cli(case, specs, al, out)
+    u = {}
+    for v in out:
+        u.setdefault(v["signature"], v)
+    return dict(nontrivial=True, outcome="mapping:members=%d split=%s" % (min(len(al or []), 20), bool(case["split"])), violations=list(u.values()))
+
+
+def _mapping_cli(case, specs, al, out):
+    """adapter.main --tool fr3d --all-dot-brackets on emitted files: stdout must be exactly the members, one after another."""
+    import contextlib
+    import io
+    import os
+    import sys
+
+    from rnapolis import adapter
+
+    from mc import enumio
+    from mc.engine import observe, scratch_dir
+
+    t = []
+    serial = 1
+    for chain, num, icode, rn, letter, atoms in specs:
+        for nm, p in atoms:
+            t.append(enumio.atom(serial, nm, rn, chain, num, "%.3f" % p[0], "%.3f" % p[1], "%.3f" % p[2], element=nm[0]))
+            serial += 1
+    sd = scratch_dir()
+    pdb = os.path.join(sd, "c16.pdb")
+    open(pdb, "w").write(enumio.emit_pdb(t))
+    lines = []
+    name = {k + 1: sp for k, sp in enumerate(specs)}
+    for i, j in case["pairs"]:
+        a, b = name[i], name[j]
+        lines.append("c16|1|%s|%s|%d\tcWW\tc16|1|%s|%s|%d\t0" % (a[0], a[3], a[1], b[0], b[3], b[1]))
+    ext = os.path.join(sd, "c16.fr3d")
+    open(ext, "w").write("\n".join(lines) + "\n")
+    old = sys.argv
+    sys.argv = ["adapter", pdb, "--external", ext, "--tool", "fr3d", "--all-dot-brackets"]
+    buf = io.StringIO()
+    try:
+        with contextlib.redirect_stdout(buf), contextlib.redirect_stderr(io.StringIO()):
+            r = observe(adapter.main)
+    finally:
+        sys.argv = old
+    if r[0] == "exc" and not r[1].startswith("exception:SystemExit"):
+        out.append(viol("adapter-cli:" + r[1], "adapter.main --all-dot-brackets raised " + r[2]))
+        return
+    if al is not None and buf.getvalue().strip("\n") != "\n".join(al):
+        out.append(viol("adapter-cli:output-differs", "adapter.main --all-dot-brackets did not print exactly Mapping2D3D.all_dot_brackets", buf.getvalue()[:400], "\n".join(al)[:400]))
+
+
 def run_case(case):
+    if case.get("mapping"):
+        return run_mapping(case)
     out = []
     seq = seq_of(case)
     stems, graph, knotted, maxcomp = info(case)
